@@ -41,6 +41,17 @@ def enumerate_cases(tier, seed):
         cases.append({"fam": f, "outs": [["out", t]]})
     for f, outs in space.symbolic_programs(tier):
         cases.append({"fam": "sym:" + f, "outs": outs})
+    # the exhaustive node-parameter spaces of C02 (every slice, roll shift, stack/concatenate axis,
+    # advanced-index placement, einsum specification incl. unit-axis broadcasting, CSR pattern)
+    from vf.checks import c02
+    seen = set()
+    for g, t in c02.gen_terms("quick"):
+        k = T.tkey(t)
+        if k not in seen and g != "Reshape":
+            seen.add(k)
+            cases.append({"fam": "c02:" + g, "outs": [["out", t]]})
+    rs = [{"fam": "c02:Reshape", "outs": [["out", t]]} for g, t in c02.gen_terms("quick") if g == "Reshape"]
+    cases += rs if tier != "quick" else runner.slice_by_seed(rs, seed, 4)
     var = []
     for f, t, _s, _d in l1:
         v = space.program_variants(t)
